@@ -193,3 +193,44 @@ func VH_C16_rerun() {
 	vm.Config.DisableStmts, vm.Config.DisableNDice, vm.Config.DisableBitwiseOp = false, false, false
 	vAssert(vm.Run(src) == nil, "text-evaluates-again-with-everything-enabled")
 }
+
+func init() {
+	vHarnesses["VH_C16_failing_run"] = VH_C16_failing_run
+}
+
+// evaluations that fail at run time in the middle of something that adjusts
+// flags temporarily (the default-sides expression, st values, macros)
+var vC16FailingRuns = []struct{ dflt, prelude, src string }{
+	{"面数", "&面数 = 1/0", "2d"},
+	{"nosuch.x", "", "d + 1"},
+	{"[1][5]", "", "2d"},
+	{"", "", "^st力量(1/0) 敏捷5"},
+	{"", "", "// #EnableDice wod true\n2a5 + [1][5]"},
+	{"", "", "`{% 1/0 %}`"},
+	{"", "", "func fn1() { 1/0 }; fn1()"},
+}
+
+//vh:prop=C16 tiers=quick,thorough sigkeys=case budget_s=600 bounds="7 evaluations that fail at run time inside a construct that adjusts flags temporarily (a failing default-sides expression, an st value, a macro program, a template block, a function), all seven flags symbolic booleans: the VM's Config is field-for-field unchanged after the failed run, and a following parse of gated texts (loop, function, bitwise operator, default-sides dice, each family) obeys the configured flags"
+func VH_C16_failing_run() {
+	c := vC16FailingRuns[vChoice("case", len(vC16FailingRuns))]
+	vm := NewVM()
+	wod, coc, fate, dc := vBool("EnableDiceWoD"), vBool("EnableDiceCoC"), vBool("EnableDiceFate"), vBool("EnableDiceDoubleCross")
+	noStmts, noNDice, noBit := vBool("DisableStmts"), vBool("DisableNDice"), vBool("DisableBitwiseOp")
+	vm.Config.EnableDiceWoD, vm.Config.EnableDiceCoC, vm.Config.EnableDiceFate, vm.Config.EnableDiceDoubleCross = wod, coc, fate, dc
+	vm.Config.DisableStmts, vm.Config.DisableNDice, vm.Config.DisableBitwiseOp = noStmts, noNDice, noBit
+	vm.Config.DefaultDiceSideExpr = c.dflt
+	vm.Config.DiceMinMode = true
+	vm.Config.CallbackSt = func(string, string, *VMValue, *VMValue, string, string) {}
+	if c.prelude != "" {
+		_ = vm.Run(c.prelude)
+	}
+	_ = vm.Run(c.src)
+	vReach("ran")
+	vAssert(vm.Config.EnableDiceWoD == wod && vm.Config.EnableDiceCoC == coc && vm.Config.EnableDiceFate == fate && vm.Config.EnableDiceDoubleCross == dc, "family-flags-unchanged-by-a-failed-run")
+	vAssert(vm.Config.DisableStmts == noStmts && vm.Config.DisableNDice == noNDice && vm.Config.DisableBitwiseOp == noBit, "disable-flags-unchanged-by-a-failed-run")
+	for _, src := range []string{"i = 0; while i < 2 { i = i + 1 }", "func fn2() { 1 }; fn2()", "1 | 2", "2d", "2a5", "b2", "f", "2c5", "if 1 { 2 }"} {
+		if err := vm.Parse(src); err == nil {
+			vC16Check(vm, wod, coc, fate, dc, noStmts, noNDice, noBit)
+		}
+	}
+}
